@@ -95,8 +95,9 @@ Section EvalSolveSpan.
     intros Hnd. apply solve_period_P_touches_only_its_period. apply SolveAllSpanFacts.locate_span_ok. exact Hnd.
   Qed.
 
+  (* no hypothesis on the labels at all: the defaults are positions (fix 7cd6323), so repeated labels are fine too *)
   Theorem solve_every_span_default_range_frame k (prog : program) d o (span : list Z) s :
-    NoDup span -> min_iter o <= max_iter o ->
+    min_iter o <= max_iter o ->
     length (status s) = length span -> (lags d + leads d < length span)%nat ->
     wf_vals (length (status s)) (vals_of s) ->
     (prog_lags num prog <= lags d)%nat -> (prog_leads num prog <= leads d)%nat ->
@@ -111,6 +112,6 @@ Section EvalSolveSpan.
     (forall q, (q < lags d)%nat \/ (n <= q + leads d)%nat ->
                nth_error (status s') q = nth_error (status s) q /\ nth_error (iters s') q = nth_error (iters s) q).
   Proof.
-    intros Hnd Hmm. apply solve_P_default_range_frame; [exact Hmm|]. apply SolveAllSpanFacts.locate_span_ok. exact Hnd.
+    intros Hmm. apply solve_P_default_range_frame. exact Hmm.
   Qed.
 End EvalSolveSpan.
